@@ -25,6 +25,16 @@ CLAIMED = {
   text="Decides for all inputs and all failure positions: no Snapshot implementation can execute a statement before returning (a refused dev database is untouched); at each of the call sites of Snapshot the restore function is deferred before any other call or return, every database write of the snapshot-holding functions is dominated by that defer, the private database-writing methods of DevLoader/DevDriver are called only from snapshot holders, the restore error reaches a named result; and from Executor.Replay no directory-mutating call is reachable in sql/migrate except CopyFiles into a MemDir allocated locally. Cleanup on every exit is a property of all paths of a few functions, which is exactly what a path rule decides.",
   note="Not decided: that the restore function removes every object kind on a real engine, and that the cleanliness test (value-level) recognises every non-empty database. StateReader/Driver callbacks passed into Replay are analysed in their own packages, not followed from Replay. ",
   ref="DESIGN.md §3 C14"),
+ "C06": dict(
+  technique="static analysis: go/cfg write-then-rehash path rule over every function of both modules + command-table exhaustiveness + digest-construction shape rules",
+  text="Decides for every path: each function that writes a migration file through a Dir reaches WriteSumFile before any non-error return (so every Atlas writer leaves the directory valid); every `atlas migrate` sub-command (enumerated from the command tree, table must be complete) validates before consuming and does not discard the result; the digest is cumulative over name+bytes of every file, Sum covers N and H, the header is verified on read, and Validate's mismatch branch always returns an error.",
+  note="Not decided: collision resistance of SHA-256 (that every edit changes the digest), Line/Pos/Reason arithmetic of ChecksumError, error paths of writers. ",
+  ref="DESIGN.md §3 C06"),
+ "C17": dict(
+  technique="static analysis: go/cfg per-case pairing rule on the ALTER TABLE builders + inverse-kind table + field-ownership of Plan.Reversible + text/template/parse of the down templates",
+  text="Decides for every change set: in the MySQL/PostgreSQL ALTER TABLE builders no case of the change switch can complete without recording a reverse change or updating the reversible flag; the recorded reverse is of the inverse kind with From/To swapped / same payload; the reverse statement is built only under the flag and after the recorded changes were reversed; Plan.Reversible is computed by SetReversible over all changes on every success path and nobody else can set it to true; every down template ranges over `rev .Changes` printing all ReverseStmts. This is the clause 'a plan containing an irreversible change is never reported reversible' and 'the down file contains exactly those reverse statements in that order' at the structural level.",
+  note="Not decided: that the reverse SQL text composes to an inverse on an engine; reverse statements of non-ALTER changes (create/drop table, index statements) are checked only for presence via SetReversible. ",
+  ref="DESIGN.md §3 C17"),
 }
 
 NA = {}
